@@ -3,22 +3,25 @@
 // Engine E2 (exhaustive operation histories on the real implementation, no
 // model of it): every history
 //
-//	pre (<= 2 ops) · Snapshot · post (d ops, optionally a second Snapshot before any post op)
+//	pre (<= 2 ops) · Snapshot · post (d ops, optionally a second Snapshot before a post op)
 //
 // over a fixed operation alphabet is executed on a fresh live world
 // (ingest.MutableOverlayWorld over a small read-only basic world, and
 // ingest.MutableTagsOverlayWorld over the same base). Only histories of maximal
 // length are enumerated; every proper prefix of a history is itself a history of
-// the space and is checked exactly once, at the canonical (all-first-op)
+// the space and is checked exactly once, at its canonical (all-first-op)
 // extension. At every check point
 //
-//   - every snapshot taken so far must answer the extended worldkit dump (every
-//     worldkit section plus the full rendering - tags, geometry, references - of
-//     every feature returned by FindFeatures, FindReferences, FindRelations/
-//     Collections/AreasBy..., Traverse, EachFeature, and Tokens) exactly as it
-//     did when it was created, and
-//   - the live world must equal a trivial reference model of the edits (a list
-//     of declarative features; worldkit.Ref renders the expected answers).
+//   - every snapshot taken so far must give the transcript (lean.go: the
+//     information of every worldkit dump section plus the rendering - tags,
+//     geometry, references - of every feature returned by FindFeatures,
+//     FindReferences, FindRelations/Collections/AreasBy..., Traverse,
+//     EachFeature, and Tokens) it gave when it was created; at canonical points
+//     also the transcript the live world gave immediately before Snapshot();
+//   - the live world's worldkit dump must equal worldkit.Ref over a trivial
+//     reference model of the edits (a list of declarative features). A
+//     divergence is classified by whether the same edits without any Snapshot()
+//     give the same live answers (then it is a defect of the live world alone).
 package main
 
 import (
@@ -295,7 +298,6 @@ func applyReal(w live, o op) error {
 	}
 	panic("bad op for world")
 }
-
 
 // ---- observation ---------------------------------------------------------------------
 
@@ -600,7 +602,6 @@ func (x *run) check() {
 	}
 }
 
-
 func (sp *space) ensureBase() {
 	sp.baseOnce.Do(func() {
 		w, err := wk.BasicStrict(baseSpec(), 1)
@@ -706,7 +707,7 @@ func main() {
 			"live-vs-model comparison is memoised per (model state, live transcript) within a worker; the transcript determines every worldkit dump section",
 		},
 		QuickDeadline:    300e9,
-		ThoroughDeadline: 40 * 60e9,
+		ThoroughDeadline: 90 * 60e9,
 		CaseTimeout:      900e9,
 		Build: func(tier string) (kit.Space, string) {
 			small := map[worldKind][]op{kindOverlay: overlayOps(false), kindTags: tagsOps(false)}
